@@ -1,0 +1,18 @@
+//go:build verif
+// +build verif
+
+// Verification hook for property C11 (build tag verif): an observer called at the head of
+// every iteration of EVMInterpreter.Run (the single call site is one line in
+// interpreter.go; with the tag off it is the empty function of verif_c11_step_off.go).
+package vm
+
+// VerifC11StepHook, when non-nil, sees the interpreter state before each operation:
+// evm.depth (1 = outermost frame), pc, opcode, gas left in the frame, stack height,
+// memory length in bytes.
+var VerifC11StepHook func(depth int, pc uint64, op byte, gas uint64, stackLen int, memLen int)
+
+func verifC11Step(in *EVMInterpreter, contract *Contract, pc uint64, stack *Stack, mem *Memory) {
+	if VerifC11StepHook != nil {
+		VerifC11StepHook(in.evm.depth, pc, contract.GetByte(pc), contract.Gas, stack.len(), mem.Len())
+	}
+}
